@@ -5,6 +5,7 @@ package main
 import (
 	"fmt"
 	"go/ast"
+	"go/constant"
 	"go/token"
 	"go/types"
 	"os"
@@ -71,6 +72,9 @@ func loadProgram(repo string, patterns []string) (*Program, error) {
 				prog.Funcs[fi.Key] = fi
 				prog.ByObj[obj] = fi
 			}
+		}
+		if strings.HasPrefix(path, modulePath) {
+			registerTableLiterals(prog, p)
 		}
 		if !strings.HasPrefix(path, modulePath) {
 			continue
@@ -315,4 +319,74 @@ func globalVarOf(e ast.Expr, info *types.Info) *types.Var {
 		}
 	}
 	return nil
+}
+
+// registerTableLiterals makes the function literals of package-level tables addressable by contracts: for
+//
+//	var tab = []T{ {name: "x", action: func(...) ... {...}}, ... }
+//
+// the literal gets the key <pkg>.tab$x$action (the string is the value of the element's field called `name`). The
+// literal is then verified like a declared function (its body is the real code; the synthesized declaration only gives
+// it a name). Contracts name it `func tab$x$action(params) results`.
+func registerTableLiterals(prog *Program, p *packages.Package) {
+	info := p.TypesInfo
+	for _, f := range p.Syntax {
+		for _, d := range f.Decls {
+			gd, ok := d.(*ast.GenDecl)
+			if !ok || gd.Tok != token.VAR {
+				continue
+			}
+			for _, sp := range gd.Specs {
+				vs := sp.(*ast.ValueSpec)
+				for i, nm := range vs.Names {
+					if i >= len(vs.Values) {
+						continue
+					}
+					tab, ok := ast.Unparen(vs.Values[i]).(*ast.CompositeLit)
+					if !ok {
+						continue
+					}
+					for _, el := range tab.Elts {
+						row, ok := el.(*ast.CompositeLit)
+						if !ok {
+							continue
+						}
+						rowName := ""
+						for _, kv := range row.Elts {
+							if kv, ok := kv.(*ast.KeyValueExpr); ok {
+								if k, ok := kv.Key.(*ast.Ident); ok && k.Name == "name" {
+									if tv, ok := info.Types[kv.Value]; ok && tv.Value != nil && tv.Value.Kind() == constant.String {
+										rowName = constant.StringVal(tv.Value)
+									}
+								}
+							}
+						}
+						if rowName == "" {
+							continue
+						}
+						for _, kv := range row.Elts {
+							kv, ok := kv.(*ast.KeyValueExpr)
+							if !ok {
+								continue
+							}
+							k, ok := kv.Key.(*ast.Ident)
+							lit, ok2 := ast.Unparen(kv.Value).(*ast.FuncLit)
+							if !ok || !ok2 {
+								continue
+							}
+							sig, ok := info.TypeOf(lit).(*types.Signature)
+							if !ok {
+								continue
+							}
+							name := nm.Name + "$" + rowName + "$" + k.Name
+							obj := types.NewFunc(lit.Pos(), p.Types, name, sig)
+							fd := &ast.FuncDecl{Name: ast.NewIdent(name), Type: lit.Type, Body: lit.Body}
+							fi := &FuncInfo{Key: p.PkgPath + "." + name, Obj: obj, Decl: fd, Pkg: p}
+							prog.Funcs[fi.Key] = fi
+						}
+					}
+				}
+			}
+		}
+	}
 }
